@@ -57,7 +57,8 @@ type rigTrafficOpts struct {
 	lifecycle  bool
 	observers  bool
 	bigPayload bool
-	longRemote int // extra in-order packets on remote stream 0
+	longRemote int  // extra in-order packets on remote stream 0
+	fbBias     bool // prefer congestion-control feedback as RTCP input
 }
 
 // genRigTraffic fills in streams and a mixed workload (shared by the rig-based properties).
@@ -109,6 +110,9 @@ func genRigTraffic(r interface {
 			k := kinds[rr.Intn(len(kinds))]
 			if o.nackBias && chance(rr, 500) {
 				k = "nack"
+			}
+			if o.fbBias && chance(rr, 700) {
+				k = pick(rr, "ccfb", "twcc")
 			}
 			op := RigOp{K: "c", R: rr.Intn(4), AtUs: at, HS: rr.Int63(), RK: k}
 			if o.errors && chance(rr, 40) {
